@@ -1,6 +1,6 @@
 """What MANIFEST.json claims, per property (bin/mkmanifest renders it)."""
 HOOK_COMMITS = ["0d2849f"]
-FIX_COMMITS = ["637e9cd", "9c26294"]
+FIX_COMMITS = ["637e9cd", "9c26294", "53d59b1"]
 
 TB = ("Trusted base: TLC; the harness projection (vertex identification, lattice-lookup fields, file parsers); "
       "the extracted tables/constants are read from the tree under test at check time.")
@@ -70,6 +70,16 @@ CLAIMS = {
        "sinks, are judged by a memo (DetTrace.tla).",
   design_ref="DESIGN.md section 6 C09", technique="TLC exhaustive interleaving model + forced-schedule replay through a hook scheduler gate + TLC memo validation of output digests",
   note=TB + " Forced schedules cover the evaluation pool; the writer side is covered by C11's schedules. Digests are SHA-256 prefixes."),
+ "C10": dict(
+  text="ConcEval.tla model-checks G concurrent Evaluate calls on a shape abstracted to the shared cells it reads and writes "
+       "(immutable, lock-bracketed cache, unguarded cache): no conflicting access, values equal the sequential values, the "
+       "cache holds F, for all interleavings; the unguarded cache of the pinned commit violates it. Which kind a real shape is "
+       "is observed for every shape type the library constructs (57: primitives, combinators, cache, voxel, mesh import, text, "
+       "wrappers, obj parts): deep digest of the reachable state across Evaluate, the Go race detector and runtime fault "
+       "detection in a -race build (one child per shape, cold instance hammered by one goroutine per CPU, plus uniform and "
+       "octree renders), and concurrent values against sequential values; ConcTrace.tla judges the observations.",
+  design_ref="DESIGN.md section 6 C10", technique="TLC model checking of access interleavings + race-detector / deep-digest observation of every shape type judged by a TLC trace spec",
+  note=TB + " The race detector sees only races in the schedules run; the defect found (Cache2D) is repaired by fix: commit 53d59b1."),
 }
 
 NOT_APPLICABLE = {}
